@@ -77,8 +77,37 @@ export class Reporter {
     let newViolations = 0;
     const knownSeen = [];
     const dir = path.join(VERIF, "replays", this.property);
+    // replay files describe this run only
+    try {
+      for (const f of fs.readdirSync(dir)) if (f.endsWith(".json")) fs.unlinkSync(path.join(dir, f));
+    } catch {}
     for (const e of this.byKey.values()) {
       const k = known.find((f) => f.key === e.key);
+      if (k && e.cases && process.env.VERIF_RECORD_CASES) {
+        // explicit maintenance run (tools/record_cases.sh), never part of a check: remember the failing inputs
+        const file = path.join(VERIF, "known_cases", this.property + ".json");
+        fs.mkdirSync(path.dirname(file), { recursive: true });
+        const cur = fs.existsSync(file) ? JSON.parse(fs.readFileSync(file, "utf8")) : {};
+        cur[e.key] = [...new Set([...(cur[e.key] || []), ...e.cases])].sort();
+        fs.writeFileSync(file, JSON.stringify(cur, null, 0));
+      }
+      if (k && e.cases && !process.env.VERIF_RECORD_CASES) {
+        // a known finding is identified by the specific inputs that fail: an input that is not among the
+        // recorded ones is a different violation with the same symptom
+        const file = path.join(VERIF, "known_cases", this.property + ".json");
+        const recorded = fs.existsSync(file) ? new Set(JSON.parse(fs.readFileSync(file, "utf8"))[e.key] || []) : null;
+        if (recorded) {
+          const fresh = e.cases.filter((c) => !recorded.has(c));
+          if (fresh.length > 0) {
+            newViolations++;
+            fs.mkdirSync(dir, { recursive: true });
+            const rf = path.join(dir, sha(e.key + "#new") + ".json");
+            fs.writeFileSync(rf, JSON.stringify({ property: this.property, key: e.key + " [inputs not among the recorded cases of the known finding]", new_cases: fresh.slice(0, 50), count: fresh.length, case: e.detail }, null, 1));
+            console.log(`VIOLATION property=${this.property} replay=${rf}`);
+            console.log(`  key: ${e.key} [${fresh.length} failing input(s) not among the recorded cases of the known finding], e.g. ${fresh.slice(0, 3).join(" ;; ")}`);
+          }
+        }
+      }
       if (k) {
         knownSeen.push({ key: e.key, count: e.count });
         console.log(`KNOWN-FINDING: property=${this.property} ${k.what} [key=${e.key}] (${e.count} cases)`);
